@@ -586,4 +586,75 @@ example : (issue exP exE3 exSign (fun _ => true) (fun _ => "hdr.claims") .ld
     { exT with types := [authType], ctx := [vcContextV1, nutsContextV1], shapeOK := shapeOf Nuts.Facts.C01.validOperationTypes exE3 [authType] exAuthSubj } "1" 1000).isOk = true := by decide
 example : apiVerifyVP exCfg exP exE none (some 2000) exVP = .ok () := by decide
 
+/-! ## StatusList2021Entry.Validate inside the model -/
+
+theorem validateNuts_pass_default {E : Env} {ty : String} {c : Cred} (h : validateNuts E ty c = .pass) : validateDefault c = .pass := by
+  unfold validateNuts at h
+  cases hv : validateNutsCredentialID E c with
+  | pass =>
+    rw [hv] at h
+    simp only at h
+    split at h
+    · exact h
+    · cases h
+  | fail e => rw [hv] at h; cases h
+  | panic e => rw [hv] at h; cases h
+
+theorem entryValidOf_iff (u ok : Bool) (s : Status) :
+    entryValidOf u ok s = true ↔
+      u = true ∧ s.id ≠ s.listCred ∧ s.typ = statusListEntryType ∧ s.purpose ≠ "" ∧ s.index.isSome = true ∧ ok = true := by
+  unfold entryValidOf
+  cases u <;> cases ok <;> by_cases h1 : s.id = s.listCred <;> by_cases h2 : s.typ = statusListEntryType <;>
+    by_cases h3 : s.purpose = "" <;> cases h4 : s.index <;> simp [h1, h2, h3]
+
+/-- END TO END (status entry → validator → Verify): every StatusList2021Entry of a credential that `Verify` reports valid decodes, has an id
+    that is not the list's URL, names a purpose, a non-negative index and a list credential that is a URL; and the credential lists the
+    status-list context — so the status check that follows reads a well-formed entry -/
+theorem accepted_credential_has_well_formed_status_entries (cfg : Cfg) (P : Crypto) (E : Env) (au cs : Bool) (at_ : Option Time) (c : Cred)
+    (u ok : Status → Bool)
+    (hc : ∀ l, c.statuses = some l → ∀ s ∈ l, s.typ = statusListEntryType → s.entryValid = entryValidOf (u s) (ok s) s)
+    (h : verify cfg P E au cs at_ c = .ok ()) :
+    ∃ l, c.statuses = some l ∧ ∀ s ∈ l, s.id ≠ "" ∧ s.typ ≠ "" ∧
+      (s.typ = statusListEntryType → c.ctx.contains statusListContext = true ∧ u s = true ∧ s.id ≠ s.listCred ∧ s.purpose ≠ "" ∧
+        s.index.isSome = true ∧ ok s = true) := by
+  have hv := (verify_ok_iff.mp h).1
+  have hd : validateDefault c = .pass := by
+    unfold validate at hv
+    cases hf : findValidator c.types with
+    | default => simp only [hf] at hv; exact hv
+    | org => simp only [hf] at hv; exact validateNuts_pass_default hv
+    | auth => simp only [hf] at hv; exact validateNuts_pass_default hv
+  unfold validateDefault guard at hd
+  split at hd
+  · rename_i hg
+    simp only [Bool.and_eq_true] at hg
+    have hs := hg.2
+    unfold statusSyntaxOK at hs
+    cases hl : c.statuses with
+    | none => rw [hl] at hs; cases hs
+    | some l =>
+      rw [hl] at hs
+      refine ⟨l, rfl, ?_⟩
+      intro s hsm
+      have := (List.all_eq_true.mp hs) s hsm
+      simp only [Bool.and_eq_true, bne_iff_ne, ne_eq, Bool.or_eq_true, Bool.not_eq_true', beq_eq_false_iff_ne] at this
+      obtain ⟨⟨h1, h2⟩, h3⟩ := this
+      refine ⟨h1, h2, ?_⟩
+      intro ht
+      rcases h3 with h3 | ⟨h3, h4⟩
+      · exact absurd ht (by simpa using h3)
+      · rw [hc l hl s hsm ht] at h4
+        obtain ⟨a, b, _, d, e, f⟩ := (entryValidOf_iff _ _ _).mp h4
+        exact ⟨h3, a, b, d, e, f⟩
+  · cases hd
+
+example : entryValidOf true true { id := "https://x/s#1", typ := statusListEntryType, purpose := "revocation", index := some 1, listCred := "https://x/s" } = true ∧
+    entryValidOf true true { id := "https://x/s", typ := statusListEntryType, purpose := "revocation", index := some 1, listCred := "https://x/s" } = false ∧
+    entryValidOf true true { id := "https://x/s#1", typ := statusListEntryType, purpose := "revocation", index := none, listCred := "https://x/s" } = false := by decide
+
+def statusEntryValidateReturnsSrc : List String :=
+  ["e.ID == e.StatusListCredential => errors.New(\"StatusList2021Entry.id is the same as the StatusList2021Entry.statusListCredential\")", "e.Type != StatusList2021EntryType => errors.New(\"StatusList2021Entry.type must be StatusList2021Entry\")", "e.StatusPurpose == \"\" => errors.New(\"StatusList2021Entry.statusPurpose is required\")", "n,err := strconv.Atoi(e.StatusListIndex); err != nil || n < 0 => errors.New(\"invalid StatusList2021Entry.statusListIndex\")", "_,err := url.ParseRequestURI(e.StatusListCredential); err != nil => fmt.Errorf(\"parse StatusList2021Entry.statusListCredential URL: %w\",err)"]
+
+theorem fact_status_entry_validate_sequence : Nuts.Facts.C01.statusEntryValidateReturns = statusEntryValidateReturnsSrc := by rfl
+
 end Nuts.C01.Props
